@@ -3,6 +3,9 @@ import Yv.Model.PackX
 import Yv.Cert.Auto
 import Yv.Cert.Complete
 import Yv.Cert.Canon
+import Yv.Cert.CompleteX
+import Yv.Cert.LAOracle
+import Yv.Model.PackA
 import Yv.Model.Drive
 import Yv.Model.XDrv
 import Yv.Model.Visitor
@@ -110,26 +113,38 @@ def process (out : IO.FS.Stream) (a : CaseAcc) : IO Unit := do
   out.putStrLn s!"V certA {verdict (Y.certA yg ya)}"
   out.putStrLn s!"V certT {verdict (Y.certT yg g.nSyms ya rows)}"
   out.putStrLn s!"V certCanon {verdict (Y.certCanon yg ya)}"
-  -- lookahead oracle on the implementation's own automaton
+  -- lookahead oracle on the implementation's own automaton: the VERIFIED list-based fixpoint `Y.laL`
+  -- (C03_oracle_exact: its table is exactly the LALR(1) relation = union over canonical LR(1) states)
   let iau : Auto := { states := a.iStates, gotos := a.iGotos }
-  match lalr g iau with
+  out.putStrLn s!"V prodOK {verdict (Y.prodOK yg g.nSyms)}"
+  match Y.laL yg g.nSyms ya with
   | none => out.putStrLn "V laOracle UNSTABLE"
-  | some t =>
-    let want := laLines g iau t
+  | some yla =>
+    let want := Y.laLines yg ya yla
     let got := a.iLA.toList
     let bad := (want.filter fun x => !(got.contains x)) ++ (got.filter fun x => !(want.contains x))
     match bad with
     | [] => out.putStrLn s!"V laOracle ok {want.length}"
     | (q, r, la) :: _ => out.putStrLn (s!"V laOracle FAIL {q} {r} " ++ nats la)
-    -- warnings predicted from the oracle lookaheads on the implementation's automaton
+    -- the fast array-based fixpoint (used only for the mirror stage) must agree with the verified one
+    match lalr g iau with
+    | none => out.putStrLn "X coreLalr=laL FAIL unstable"
+    | some t => out.putStrLn s!"X coreLalr=laL {verdict (laLines g iau t == want)}"
+    -- candidate actions, warnings and the LALR(1) test are computed from the verified lookaheads
+    let t : LATab := iau.states.mapIdx fun q its => its.map fun it => (it, yla.get q ⟨it.1, it.2⟩)
     for q in [0:iau.states.size] do
       for (sy, x, y) in stateWarnings g iau t q do out.putStrLn s!"O WARN {q} {sy} {x} {y}"
     let mc := maxCands g iau t
     out.putStrLn s!"V isLALR1 {if mc ≤ 1 then "yes" else "no"} {mc}"
     if mc ≤ 1 then
-      let yla : Y.LATab := { tab := t.toList.map fun l => l.map fun (it, la) => (⟨it.1, it.2⟩, la) }
       out.putStrLn s!"V certC {verdict (Y.certC yg ya yla rows)}"
-    -- the oracle's lookaheads for all items (used by C03's replay and by the evidence)
+      -- the remaining hypotheses of C02_complete (laL only returns tables that pass laClosed for setsL's sets)
+      match Y.setsL yg g.nSyms with
+      | none => out.putStrLn "V setsClosed FAIL"
+      | some S =>
+        out.putStrLn s!"V setsClosed {verdict (Y.setsClosed yg S)}"
+        out.putStrLn s!"V laClosed {verdict (Y.laClosed yg S (Y.toLAData ya yla))}"
+        out.putStrLn s!"V laTerm {verdict (Y.laTerm yg ya yla)}"
   -- packed lookup through the implementation's arrays
   if a.packed then
     let p : PackX.Packed := { act := a.iAct, off := a.iOff, check := a.iChk }
@@ -302,11 +317,15 @@ partial def loop (inp out : IO.FS.Stream) (a : CaseAcc) (x : XAcc := {}) : IO Un
     | "PROW" :: cells => loop inp out a { x with prow := x.prow.push (cells.map String.toInt!) }
     | "PEND" :: _ => do
       let tab := x.prow.toList
-      let p := PackX.packTable tab
+      -- the VERIFIED packing model (C05_pack_roundtrip is a theorem about `PackA.packA`)
+      let p := PackA.packA tab
+      let px := PackX.packTable tab
       out.putStrLn s!"PCASE {x.id}"
       out.putStrLn ("M PACT " ++ ints p.act)
       out.putStrLn ("M POFF " ++ ints p.off)
       out.putStrLn ("M PCHK " ++ ints p.check)
+      -- the fast array-based mirror used on large tables must agree with it
+      out.putStrLn s!"X packA=PackX {verdict (p.act == px.act && p.off == px.off && p.check == px.check)}"
       out.putStrLn "PEND"
       loop inp out a {}
     | _ => loop inp out a x
